@@ -1125,6 +1125,8 @@ package scipipe
 //@   ensures each-remote-notified-once[C04,C05]: forall r string :: old(r in pt.RemotePorts) ==> closeCalls[old(pt.RemotePorts[r])] == old(closeCalls)[old(pt.RemotePorts[r])] + 1
 //@   ensures removed-from-remote[C04]: forall r string :: old(r in pt.RemotePorts) ==> !((procName(pt.process) + "." + pt.name) in old(pt.RemotePorts[r]).RemotePorts)
 //@   ensures nothing-sent: forall c chan *FileIP :: !fresh(c) ==> chanSentN(c) == old(chanSentN(c))
+//@   ensures only-remote-maps-change: forall m map[string]*OutPort :: !(exists r string :: old(r in pt.RemotePorts) && old(pt.RemotePorts[r]).RemotePorts == m) ==> dom(m) == old(dom(m)) && vals(m) == old(vals(m))
+//@   loop 0 invariant only-remote-maps-change: forall m map[string]*OutPort :: !(exists r string :: old(r in pt.RemotePorts) && old(pt.RemotePorts[r]).RemotePorts == m) ==> dom(m) == old(dom(m)) && vals(m) == old(vals(m))
 //@   loop 0 invariant vis: forall r string :: $visited[r] ==> old(r in pt.RemotePorts)
 //@   loop 0 invariant gone: forall r string :: $visited[r] ==> !(r in pt.RemotePorts)
 //@   loop 0 invariant kept: forall r string :: !$visited[r] ==> ((r in pt.RemotePorts) <==> old(r in pt.RemotePorts)) && pt.RemotePorts[r] == old(pt.RemotePorts[r])
